@@ -39,6 +39,9 @@ pub fn check(bc: &BuildCase, fam: &str, obs: &mut Obs) -> Result<(), Fail> {
         ensure!(vs == v, "size", "forced version {} but matrix side {} (= version {}) ({:?})", v, n, vs, bc);
     }
     let g = geometry(vs);
+    if let Some(d) = built.index_view_differs() {
+        return fail("index_view", format!("the row view of the symbol differs from its data: {} ({:?})", d, bc));
+    }
     let vals = built.values();
     for r in 0..n {
         for c in 0..n {
